@@ -175,6 +175,10 @@ class Peer:
         elif name == 'Skipped':
             from xdoctest import exceptions
             cls = exceptions._pytest.outcomes.Skipped
+        elif name == 'Failed':
+            # what pytest.fail() raises: a BaseException that is not a graceful exit
+            from _pytest.outcomes import Failed
+            cls = Failed
         else:
             cls = BUILTIN_EXC[name]
         if cls is SystemExit:
@@ -200,6 +204,12 @@ class Peer:
                 if f.get('how') == 'closed':
                     # ... and the code under test closes its own stream when done
                     sys.stdout.close()
+            return None
+        if kind == 'close_stdout':
+            # code under test that closes whatever it finds in sys.stdout when it is done
+            if self.mode == 'real':
+                self._stdout_was_swapped = True
+                sys.stdout.close()
             return None
         if kind == 'warn_filters':
             how = f.get('how', 'simplefilter')
@@ -370,9 +380,11 @@ class Peer:
         mod = sys.modules.get(modname)
         val = getattr(mod, 'G', '<unset>')
         val = str(val)
+        # ... and which Sim*/sim* names the module under test currently has
+        names = ','.join(sorted(x for x in (vars(mod) if mod is not None else {}) if x.lower().startswith('sim')))
         if self.mode == 'real':
-            self.modglobals.append((dtid, k, pid, val))
-            LOG.add('modglobal', dtid, k, pid, val)
+            self.modglobals.append((dtid, k, pid, val, names))
+            LOG.add('modglobal', dtid, k, pid, val, names)
         return val
 
     # -- module import bodies ----------------------------------------------
@@ -417,6 +429,15 @@ class Peer:
             raise exc
         if kind == 'print':
             sys.stdout.write('importing ' + modname + '\n')
+        if kind == 'warn_filters':
+            # a module that installs a warning filter while it is being imported
+            if self.mode == 'real':
+                self.fired.append(('import_warn_filters', None, None, modname))
+                self.import_log.append((modname, 'warnfilter', None))
+            if b.get('how') == 'error':
+                warnings.simplefilter('error')
+            else:
+                warnings.filterwarnings('ignore', message='sim-import-' + modname)
         if kind == 'warn':
             if self.mode == 'real':
                 self.fired.append(('import_warn', None, None, modname))
